@@ -33,7 +33,8 @@ fn rng(u: &mut Unstructured) -> Result<RngSpec> {
 }
 
 fn keyspec(u: &mut Unstructured) -> Result<KeySpec> {
-    Ok(match u.int_in_range(0u8..=5)? {
+    Ok(match u.int_in_range(0u8..=6)? {
+        6 => KeySpec::Raw([u64::MAX, u64::MAX - 1, 0, 1, 1 << 63, u64::MAX >> 1, 1 << 32, (1 << 32) - 1][u.int_in_range(0usize..=7)?]),
         0 => KeySpec::Raw(u.arbitrary()?),
         1 => KeySpec::Small(u.int_in_range(0u8..=40)?),
         2 => KeySpec::QR { quot: u.arbitrary()?, rem: u.int_in_range(0u16..=5)?, trash: u.arbitrary()? },
